@@ -12,6 +12,7 @@
 -/
 import Ladybug.Proofs.C05Lemmas
 import Ladybug.Proofs.C05Obj
+import Ladybug.Model.SunExt
 
 open Real
 
@@ -817,6 +818,110 @@ theorem C05_getters_determine_object (c : Cfg ℝ) :
   rw [latitudeRad_deg _ hl.1 hl.2]
 
 
+/-! ### Round 4: every class of date-time argument, daylight-saving hours, the arms of the hour angle -/
+
+section AnyDateTimeClass
+
+variable {α : Type} [Add α] [Sub α] [Mul α] [Div α] [Neg α] [OfScientific α] [LT α] [LE α]
+  [DecidableLT α] [DecidableLE α] [Transc α]
+
+/-- THE CLASS OF THE DATE-TIME ARGUMENT DOES NOT MATTER.  A native `datetime.datetime` of the year a
+    ladybug `DateTime` stands for (2016 when the DateTime or the sunpath is a leap-year one, else 2017)
+    with the same month, day, hour and minute gives exactly the sun of that `DateTime` — although the
+    code takes another path for it (`except AttributeError` for the float hour, no `leap_year`
+    attribute).  Every numeric instance (Float as executed, ℝ). -/
+theorem C05_native_datetime_same_sun (ofN : Nat → α) (c : Cfg α) (d : Cal.DT) (s : Bool) :
+    sunOfNative ofN c (if d.leap || c.leap then 2016 else 2017) d.month d.day d.hour d.minute s false
+      = sunOfDT ofN c d s := by
+  have l16 : isLeapYear 2016 = true := by decide
+  have l17 : isLeapYear 2017 = false := by decide
+  obtain ⟨la, lo, tz, no, cl⟩ := c
+  obtain ⟨mo, da, h, mi, lp⟩ := d
+  cases cl <;> cases lp <;>
+    simp [sunOfNative, yearUsed, l16, l17, sunOfDT_eq_instant, sunOfDTDst]
+
+/-- On a leap-year sunpath EVERY native date-time, whatever its year, is answered with the sun of the
+    leap-year `DateTime` of the same month, day, hour and minute (the `datetime.year != 2016 and
+    self.is_leap_year` conversion). -/
+theorem C05_native_on_leap_sunpath (ofN : Nat → α) (c : Cfg α) (hc : c.leap = true)
+    (y mo da h mi : Nat) (s : Bool) :
+    sunOfNative ofN c y mo da h mi s false = sunOfDT ofN c ⟨mo, da, h, mi, true⟩ s := by
+  obtain ⟨la, lo, tz, no, cl⟩ := c
+  simp only at hc
+  subst hc
+  have hy : yearUsed true y = 2016 := by
+    unfold yearUsed
+    by_cases h : y = 2016 <;> simp [h]
+  have l16 : isLeapYear 2016 = true := by decide
+  simp [sunOfNative, hy, l16, sunOfDT_eq_instant, sunOfDTDst]
+
+/-- Four ways to name one instant — minute of the year, hour of the year, month/day/hour, and a
+    native date-time of the sunpath's year — give the same sun (extends `C05_entry_points`). -/
+theorem C05_entry_points_native (ofN : Nat → α) (c : Cfg α) (d : Cal.DT) (hv : d.valid)
+    (hl : d.leap = c.leap) (solar : Bool) :
+    calcSunFromMoy ofN c (d.moy : Int) solar
+      = liftSun (sunOfNative ofN c (if c.leap then 2016 else 2017) d.month d.day d.hour d.minute solar false) := by
+  rw [(C05_entry_points ofN c d hv hl solar).1, ← C05_native_datetime_same_sun ofN c d solar, hl, Bool.or_self]
+
+end AnyDateTimeClass
+
+/-- A DAYLIGHT-SAVING HOUR IS THE STANDARD-TIME HOUR OF THE ZONE ONE HOUR FURTHER EAST: for clock-time
+    suns, taking one hour off the reading (`hour - 1`, what the code does in a daylight-saving hour) gives
+    the solar time — hence hour angle, altitude, azimuth for the same declination — of the unshifted
+    reading in the time zone `tz + 1`. -/
+theorem C05_dst_is_zone_one_hour_east (hour eot lonRad tz : ℝ) :
+    solarTime (hour - 1.0) eot lonRad tz false = solarTime hour eot lonRad (tz + 1) false := by
+  have e60 : (60.0 : ℝ) = 60 := by norm_num
+  have e4 : (4.0 : ℝ) = 4 := by norm_num
+  have e1440 : (1440.0 : ℝ) = 1440 := by norm_num
+  unfold solarTime
+  simp only [Bool.false_eq_true, if_false, lit1, e60, e4, e1440]
+  have : (hour - 1) * 60 + eot + 4 * deg lonRad - 60 * tz
+      = hour * 60 + eot + 4 * deg lonRad - 60 * (tz + 1) := by ring
+  rw [this]
+
+/-- THE TWO ARMS OF THE HOUR-ANGLE LINE (`sol_time / 4 + 180 if sol_time < 0 else sol_time / 4 - 180`),
+    for a solar time within a day either side of midnight (minutes in [-1440, 1440)): the result lies in
+    [-180, 180), it is `t/4 - 180` or that plus a full turn, and the cosine — all the altitude sees — is
+    the same on both arms; only the sign test `hour_angle > 0` of the azimuth depends on the arm. -/
+theorem C05_hour_angle_arms (t : ℝ) (h0 : -1440 ≤ t) (h1 : t < 1440) :
+    -180 ≤ hourAngle t ∧ hourAngle t < 180 ∧
+      (hourAngle t = t / 4 - 180 ∨ hourAngle t = t / 4 - 180 + 360) ∧
+      Real.cos (rad (hourAngle t)) = Real.cos (rad (t / 4 - 180)) := by
+  have e4 : (4.0 : ℝ) = 4 := by norm_num
+  unfold hourAngle
+  simp only [lit0, lit180, e4]
+  split_ifs with h
+  · refine ⟨by linarith, by linarith, Or.inr (by ring), ?_⟩
+    have : rad (t / 4 + 180) = rad (t / 4 - 180) + 2 * π := by
+      rw [rad_eq, rad_eq]; field_simp; ring
+    rw [this, Real.cos_add_two_pi]
+  · exact ⟨by linarith, by linarith, Or.inl rfl, rfl⟩
+
+/-- THE `sol_time < 0` ARM NEEDS DAYLIGHT SAVING: for clock-time suns the solar time is never negative
+    (`% 1440`), for solar-time suns it is the reading itself; so with a non-negative reading — every
+    reading without a daylight-saving period — the hour angle is always computed by the second arm. -/
+theorem C05_negative_solar_time_needs_dst (hour eot lonRad tz : ℝ) (solar : Bool)
+    (hh : solar = true → 0 ≤ hour) :
+    hourAngle (solarTime hour eot lonRad tz solar * 60.0)
+      = solarTime hour eot lonRad tz solar * 60.0 / 4.0 - 180.0 := by
+  have e60 : (60.0 : ℝ) = 60 := by norm_num
+  have hs : 0 ≤ solarTime hour eot lonRad tz solar := by
+    cases solar
+    · exact (C05_hour_angle_range hour eot lonRad tz).1
+    · simpa [solarTime] using hh rfl
+  unfold hourAngle
+  have : ¬ (solarTime hour eot lonRad tz solar * 60.0 < 0.0) := by
+    rw [lit0, e60, not_lt]; positivity
+  rw [if_neg this]
+
+/-- … and it IS taken in a daylight-saving hour: solar-time flag, reading 0:30, one hour off → solar
+    time −30 minutes, hour angle 172.5° (half an hour before the previous midnight), not −187.5°. -/
+theorem C05_negative_solar_time_in_dst_hour :
+    hourAngle (solarTime ((0.5 : ℝ) - 1.0) 0 0 0 true * 60.0) = 172.5 := by
+  unfold hourAngle solarTime
+  norm_num
+
 /-! ### Non-vacuity -/
 
 example : (⟨2, 29, 13, 30, true⟩ : Cal.DT).valid := by decide
@@ -850,5 +955,10 @@ example : (Op.read (.moy 0 false) : Op ℝ).isPassive = true := rfl
 example : (step Validate.first (fun n => (n : ℝ)) (Obj.ofCfg ⟨0, 0, some 0, 0, false⟩) (.read (.moy (-5000) false))).2.isRefused
     = true := by
   simp [step, observe, Obj.withDT, Cal.fromMoy, Out.isRefused, Obj.ofCfg]
+
+/-- a native 2021 date-time on a leap-year sunpath is answered for 2016 -/
+example : yearUsed true 2021 = 2016 := by decide
+/-- Sydney's southern daylight-saving period (start after end): 0:20 on 1 January is inside, 1 July is not -/
+example : dstHour 398040 136980 20 = true ∧ dstHour 398040 136980 262080 = false := by decide
 
 end Sun
